@@ -35,12 +35,13 @@ META = {
         "GreedyRewritePatternApplier that is generic in the IR (`Sem`), for every pattern that is a sequence of "
         "rewriter calls, every pop policy (any function returning a member), every walk configuration and both "
         "matchers (single pattern, greedy applier with DCE short-circuit).  Proved outright for the heap model that "
-        "is run against xDSL (its use-replacing primitives satisfy FlagLaws): a call other than create_block that "
+        "is run against xDSL (its use-replacing primitives satisfy FlagLaws): a call that "
         "changes the IR sets has_done_action; a match that changes the IR sets it; when rewrite_region returns "
         "with apply_recursively every op of the region is quiescent (a match on it leaves the IR and the flag "
-        "untouched); the returned bool is true whenever the IR changed -- all three for create_block-free patterns "
-        "(refuted with create_block: C11_flag_sound_refuted, C11_fixpoint_and_return_refuted).  A single worklist "
-        "pass does not reach the fixpoint even without any defect (C11_single_pass_refuted): the listener callbacks "
+        "untouched); the returned bool is true whenever the IR changed -- for every method and pattern set (the "
+        "pre-5d0c2dd code, where create_block left the flag unset, is kept as an `_old` variant with its recorded "
+        "refutations C11_flag_sound_old_refuted, C11_fixpoint_and_return_old_refuted).  A single worklist "
+        "pass does not reach the fixpoint (C11_single_pass_refuted): the listener callbacks "
         "re-enqueue only inserted/modified ops, users of replaced results and single-use operand definers of erased "
         "ops; the outer while loop is what guarantees it.  Proved for every IR model satisfying the stated primitive "
         "laws (LiveLaws / EvLaws; satisfiability shown on a minimal model, not discharged for the heap model): the "
@@ -793,28 +794,20 @@ def holds(case, res):
 
 
 def known(case, res):
-    """C11-kf-1: every unflagged change comes from a match that called create_block (and returned-bool /
-    fixpoint failures are its consequences).  C11-kf-2: every unreported change is an operand change in a
-    match that called inline_block with arg_values."""
+    """C11-kf-2: every unreported change is an operand change in a match that called inline_block with
+    arg_values, and nothing else fails.  (C11-kf-1, create_block leaving has_done_action unset, is fixed
+    by 5d0c2dd and suppresses nothing; the driver additionally only honours ids of unfixed entries.)"""
     obs = observations(case)
     if "error" in obs:
         return None
     kinds = {k for k, _ in failures(case)}
-    ids = []
-    if kinds & {"flag", "ret", "fixpoint"}:
-        bad = [m for m in obs["matches"] if m["changed"] and not m["flag"]]
-        if not bad or not all(any(k == "createblock" for k, _ in m["calls"]) for m in bad):
-            return None
-        ids.append("C11-kf-1")
-    if "events" in kinds:
-        for m in obs["matches"]:
-            if m["uncovered"] and not (all(kind == 2 for _, kind in m["uncovered"])
-                                       and any(k == "inlineblock" and n > 0 for k, n in m["calls"])):
-                return None
-        ids.append("C11-kf-2")
-    if kinds - {"flag", "ret", "fixpoint", "events"}:
+    if kinds != {"events"}:
         return None
-    return ids[0] if ids else None
+    for m in obs["matches"]:
+        if m["uncovered"] and not (all(kind == 2 for _, kind in m["uncovered"])
+                                   and any(k == "inlineblock" and n > 0 for k, n in m["calls"])):
+            return None
+    return "C11-kf-2"
 
 
 def nontrivial(case, res):
@@ -1305,16 +1298,16 @@ def run(ctx: Ctx):
     rng = ctx.rng
     replay_findings(ctx, "action-table", impl, holds)
     replay_findings(ctx, "scripted-walks", impl, holds)
-    direct = direct_table_cases() + gen_direct_random(rng, 1500 if thorough else 150)
+    direct = direct_table_cases() + gen_direct_random(rng, 1500 if thorough else 100)
     differential(ctx, DiffSpec("action-table", REQ, direct, impl, coq_expr, holds, known, nontrivial, shard=120))
     walks = []
-    for base in gen_walk_bases(rng, 260 if thorough else 22):
+    for base in gen_walk_bases(rng, 260 if thorough else 16):
         walks += expand(rng, base, CONFIGS)
-    for base in gen_walk_bases(rng, 1200 if thorough else 60):
+    for base in gen_walk_bases(rng, 1200 if thorough else 40):
         walks += expand(rng, base, [rng.choice(CONFIGS)])[rng.randrange(2):][:1]
     for base in gen_chain_bases(rng, 100 if thorough else 8):
         walks += expand(rng, base, [rng.choice(CONFIGS[1::2]), rng.choice(CONFIGS)])
-    differential(ctx, DiffSpec("scripted-walks", REQ, walks, impl, coq_expr, holds, known, nontrivial, shard=40))
+    differential(ctx, DiffSpec("scripted-walks", REQ, walks, impl, coq_expr, holds, known, nontrivial, shard=60 if thorough else 30))
     hist = {}
     for c in direct + walks:
         for tb in (c.get("pats") or [[{"steps": c.get("steps", [])}]]):
